@@ -16,6 +16,9 @@ offering the surface paramiko documents for socket-like objects
   although bytes are buffered (a slow / segmenting link: the peer's packet arrives in pieces
   with an idle gap in between). `set_frag(plan)` installs a finite plan atomically;
 * EOF / error injection (`set_eof()`, `set_error(exc)`);
+* `set_full(True)`: the receiver has stopped reading and every buffer on the way is full - `send` accepts
+  nothing: it waits out the sender's timeout and raises `socket.timeout` (waits for good without a timeout)
+  until `set_full(False)`, EOF or close (then: broken pipe). `blocked_senders` = senders waiting right now;
 * `reader_blocked`: True while the receiving side sits in `recv` with nothing to read —
   for a paramiko Transport this means its thread has processed everything delivered.
 """
@@ -46,11 +49,29 @@ class Direction:
         self.reads = 0
         self.gaps = 0
         self.bytes_delivered = 0
+        self.full = False
+        self.blocked_senders = 0
+        self.refused = 0  # send attempts that timed out against a full direction
 
     # -- sender side
-    def push(self, data):
+    def push(self, data, timeout=None):
         data = bytes(data)
         with self.cv:
+            if self.full and not self.eof:
+                end = None if timeout is None else time.time() + timeout
+                self.blocked_senders += 1
+                try:
+                    while self.full and not self.eof:
+                        if end is None:
+                            self.cv.wait(1.0)
+                        else:
+                            left = end - time.time()
+                            if left <= 0:
+                                self.refused += 1
+                                raise socket.timeout()
+                            self.cv.wait(left)
+                finally:
+                    self.blocked_senders -= 1
             if self.eof:
                 return -1
             self.sent.append(data)
@@ -138,6 +159,12 @@ class Direction:
         with self.cv:
             self.frag = iter(list(plan)) if plan else None
 
+    def set_full(self, on):
+        """Send side full (the peer has stopped reading): senders get nothing accepted until switched off / EOF."""
+        with self.cv:
+            self.full = on
+            self.cv.notify_all()
+
     def set_eof(self):
         with self.cv:
             self.eof = True
@@ -218,7 +245,7 @@ class Endpoint:
     def send(self, data):
         if self._closed:
             raise OSError(9, "Bad file descriptor")
-        n = self._out.push(data)
+        n = self._out.push(data, self._timeout)
         if n < 0:
             raise OSError(32, "Broken pipe")
         return n
